@@ -132,7 +132,7 @@ var advTemplates = []advTemplate{
 			`utf8.codepoint("", 1, N)`, `utf8.len("", 1, N)`, `utf8.offset("abc", N)`, `utf8.offset("abc", -N)`, `utf8.char()`,
 			`table.remove({}, N)`, `table.insert({}, N, 1)`, `select(N, 1)`, `select(-N, 1)`, `math.random(1, N)`,
 			`string.gsub("", "", "", N)`, `("xxx"):gsub("", "", N)`, `("x"):find("", N)`, `("x"):find("", -N, true)`, `string.format("%s", ""):rep(N)`,
-			`next({}, nil)`, `rawlen({})`, `#setmetatable({}, {__len = function() return N end})`, `table.concat(setmetatable({}, {__len = function() return N end, __index = function() return "" end}))`,
+			`next({}, nil)`, `rawlen({})`, `(#setmetatable({}, {__len = function() return N end}))`, `table.concat(setmetatable({}, {__len = function() return N end, __index = function() return "" end}))`,
 			`table.unpack(setmetatable({}, {__len = function() return N end}))`, `table.sort(setmetatable({}, {__len = function() return N end, __index = function() return 1 end, __newindex = function() end}))`,
 			`table.move(setmetatable({}, {__index = function() return 0 end}), 1, N, 1, setmetatable({}, {__newindex = function() end}))`,
 		}
@@ -293,7 +293,7 @@ var advTemplates = []advTemplate{
 		return `for l in io.lines("/dev/zero", math.tointeger(` + bigN(g) + `)) do emit("len", #l) break end`
 	}},
 	{"file-read-sparse", func(g *core.Tape) string {
-		return `local f = io.tmpfile() f:seek("set", math.tointeger(` + bigN(g) + `)) f:write("x") f:seek("set", 0) return #f:read("a")`
+		return `local f = io.tmpfile() f:seek("set", math.tointeger(` + []string{"1e6", "1e8", "2^31"}[g.Choose(3)] + `)) f:write("x") f:seek("set", 0) return #f:read("a")`
 	}},
 	{"live:varargs-held-by-frames", func(g *core.Tape) string {
 		// every frame of the recursion holds its own copy of the argument list (16 bytes a value)
